@@ -22,6 +22,9 @@ pub struct Case06 {
     /// rows of cells (all rows have width w)
     pub rows: Vec<Vec<Cell>>,
     pub class: String,
+    /// save with a SAUCE record behind the picture
+    #[serde(default)]
+    pub sauce: bool,
 }
 
 const SYMS: [Cell; 18] = {
@@ -168,11 +171,11 @@ fn expected_attr(c: &Cell, two_fonts: bool, ice: bool) -> u8 {
 fn run(case: &Case06) -> Option<(String, Value)> {
     let buf = build(case);
     let two = case.rows.iter().flatten().any(|c| c.4 == 1) && case.rows.iter().flatten().any(|c| c.4 == 0);
-    let comp = match buf.to_bytes("xb", &save_opts(false, true)) {
+    let comp = match buf.to_bytes("xb", &save_opts(case.sauce, true)) {
         Ok(b) => b,
         Err(e) => return Some(("xbin|save-error|compressed".into(), json!({"error": e.to_string()}))),
     };
-    let raw = match buf.to_bytes("xb", &save_opts(false, false)) {
+    let raw = match buf.to_bytes("xb", &save_opts(case.sauce, false)) {
         Ok(b) => b,
         Err(e) => return Some(("xbin|save-error|uncompressed".into(), json!({"error": e.to_string()}))),
     };
@@ -189,8 +192,11 @@ fn run(case: &Case06) -> Option<(String, Value)> {
             if hd.w != case.w as usize || hd.h != case.rows.len() {
                 return Some(("xbin|spec|header-size".into(), json!({"header": [hd.w, hd.h], "source": [case.w, case.rows.len()]})));
             }
-            if end != comp.len() {
-                return Some(("xbin|spec|trailing-bytes".into(), json!({"decoded_until": end, "file_len": comp.len()})));
+            // "nothing but the optional SAUCE record follows the last row": EOF marker + 128-byte record
+            let tail = &comp[end..];
+            let sauce_ok = case.sauce && tail.len() == 129 && tail[0] == 0x1A && &tail[1..8] == b"SAUCE00";
+            if end != comp.len() && !sauce_ok {
+                return Some(("xbin|spec|trailing-bytes".into(), json!({"decoded_until": end, "file_len": comp.len(), "with_sauce": case.sauce})));
             }
             for (y, (src, dec)) in case.rows.iter().zip(rows.iter()).enumerate() {
                 for (x, (s, d)) in src.iter().zip(dec.iter()).enumerate() {
@@ -275,6 +281,7 @@ impl C06 {
                 ice: false,
                 rows: (first..first + count).map(|i| enum_row(i, w, syms)).collect(),
                 class: format!("exhaustive-w{w}-a{alpha}"),
+                sauce: false,
             };
         }
         let mut rng = ctx.rng(k);
@@ -310,11 +317,32 @@ impl C06 {
                 row
             })
             .collect();
+        let mut rows: Vec<Vec<Cell>> = rows;
+        // a third of the random pictures carry a SAUCE record; half of those end in bytes that look like the EOF marker in
+        // front of the record (character 0x1A, or the attribute byte 0x1A = blue background, light green foreground)
+        let sauce = rng.chance(1, 3);
+        let mut tail = "";
+        if sauce && rng.bool() {
+            let n = 1 + rng.usize(3).min(w as usize - 1);
+            let as_char = rng.bool();
+            tail = if as_char { "-ends-in-char-1A" } else { "-ends-in-attr-1A" };
+            if let Some(last) = rows.last_mut() {
+                let len = last.len();
+                for c in last[len - n..].iter_mut() {
+                    if as_char {
+                        c.0 = 0x1A;
+                    } else {
+                        *c = (c.0, if two { 2 } else { 10 }, 1, false, if two { 1 } else { 0 });
+                    }
+                }
+            }
+        }
         Case06 {
             w,
             ice,
             rows,
-            class: format!("random-{}-{}", if small { "small" } else { "full" }, if two { "2fonts" } else { "1font" }),
+            class: format!("random-{}-{}{}{tail}", if small { "small" } else { "full" }, if two { "2fonts" } else { "1font" }, if sauce { "-sauce" } else { "" }),
+            sauce,
         }
     }
 
@@ -363,7 +391,7 @@ impl Prop for C06 {
         "C06"
     }
     fn rule(&self) -> &'static str {
-        "rows are independent in XBin compression (the run state resets per row), so exhaustive rows are packed 4096 per buffer: ALL rows of width 1..=7 over 3 characters x 3 attributes x 2 font pages (thorough; quick: widths 1..=6 completely plus a seeded sample of width 7) and all rows of width 1..=10 over a 2x2 alphabet; plus seeded random buffers of width 1..=200 x height 1..=30 from small and full alphabets, one or two fonts, blink or ice, widths 63/64/65/127/128/129 forced. Oracles: (1) a strict decoder written from doc/FileFormats/x_bin.htm applied to Buffer::to_bytes(\"xb\", compress) - every run 1..=64 cells, no run crosses a row, every row decodes to exactly the width, no trailing bytes, decoded (char, attribute incl. font-page bit) == source; (2) engine loader: compressed == uncompressed == source per cell incl. font page. distinct_nontrivial = distinct sampled (block, row) of the exhaustive part and (width, class, first cells) of the random part"
+        "rows are independent in XBin compression (the run state resets per row), so exhaustive rows are packed 4096 per buffer: ALL rows of width 1..=7 over 3 characters x 3 attributes x 2 font pages (thorough; quick: widths 1..=6 completely plus a seeded sample of width 7) and all rows of width 1..=10 over a 2x2 alphabet; plus seeded random buffers of width 1..=200 x height 1..=30 from small and full alphabets, one or two fonts, blink or ice, widths 63/64/65/127/128/129 forced; a third of the random pictures are saved with a SAUCE record, half of those end in one to three cells whose character or attribute byte is 0x1A (the EOF marker in front of the record). Oracles: (1) a strict decoder written from doc/FileFormats/x_bin.htm applied to Buffer::to_bytes(\"xb\", compress) - every run 1..=64 cells, no run crosses a row, every row decodes to exactly the width, no trailing bytes other than EOF + the 128-byte SAUCE record when one was asked for, decoded (char, attribute incl. font-page bit) == source; (2) engine loader: compressed == uncompressed == source per cell incl. font page. distinct_nontrivial = distinct sampled (block, row) of the exhaustive part and (width, class, first cells) of the random part"
     }
     fn meta(&self, ctx: &Ctx) -> Value {
         json!({"floor_evaluations": 200, "floor_distinct": ctx.tier.pick(1000u64, 5000u64),
